@@ -142,7 +142,7 @@ def rule_outwrite(rep, tname, m):
                    sample={"arm": key, "write_index": show(widx), "bound": show(min_out)})
         else:
             # counter n: starts at 0, +1 once per iteration after the write
-            n0 = m["locals"].get(widx["p"]) if widx is not None and widx.get("k") == "path" else None
+            n0 = m["pre_match"].locals.get(widx["p"]) if widx is not None and widx.get("k") == "path" else None
             ups = [s for s in a["steps"] if s[0] == "update" and widx is not None and s[1] == widx.get("p")]
             order = [s[0] for s in a["steps"]]
             ok = n0 is not None and nbit(n0) == "i:0" and len(ups) == 1 and ups[0][2] == "+" and nbit(ups[0][3]) == "i:1" \
@@ -159,9 +159,10 @@ def rule_margin(rep, tname, m):
     fn = m["fn"]
     alg = make_alg(facts, tname)
     key = "%s::process_into_buffer" % tname
-    end = m["locals"].get("end_idx")
+    end = m["roles"]["end"]
+    IDX = m["roles"]["idx"]
     if end is None:
-        rep.ob(R, key + "/step-margin", False, "no end_idx", loc(fn))
+        rep.ob(R, key + "/step-margin", False, "the arms do not share one loop guard `%s < END`" % IDX, loc(fn))
         return
     ev = alg.conv(end)
     r, t, chunk = alg.sym("resample_ratio"), alg.sym("target_ratio"), alg.sym("chunk_size")
@@ -181,8 +182,8 @@ def rule_margin(rep, tname, m):
            sample={"type": tname, "end_idx": str(ev)})
     for a in m["arms"]:
         cond = a.get("cond_raw")
-        c_ok = a["loop_kind"] == "while" and cond is not None and cond.get("k") == "bin" and cond["op"] == "<" and is_path(cond["l"], "idx") \
-            and is_path(strip_casts(cond["r"]), "end_idx")
+        c_ok = a["loop_kind"] == "while" and cond is not None and cond.get("k") == "bin" and cond["op"] == "<" and is_path(cond["l"], IDX) \
+            and nbit(a["cond"]["r"]) == nbit(end)
         rep.ob(R, "%s/%s/guard" % (tname, a["variant"]), c_ok, "loop guard must be `idx < end_idx` (got %s)" % show(cond), loc(fn, a["node"]))
         if K is None:
             continue
